@@ -39,6 +39,9 @@ CLAIMED = {
  "C13": ("other", "framing/typestate rules on every generated TL2 object reader plus decision table of basictl.TL2ParseSize/SkipSizedValue",
          "Decides that each object reader resets on size 0, cuts the body by the declared size after rejecting size > input, reads every field from the body only, returns the post-cut input on every success path without testing the body for leftovers (appended fields are skipped), reads later presence bytes only when bytes remain (else 0) and gives every absent field its empty value; that TL2ParseSize selects its three forms by the first byte and rejects only truncation and >MaxInt (no minimality test) and SkipSizedValue rejects length > input. Value equality between minimal and non-minimal encodings is not decided beyond 'same path after the size is parsed'.",
          "corpus-bounded; unknown union variants are rejected by design", "DESIGN.md §3 C13"),
+ "C14": ("translation_validation", "generator run as a compiler over an option matrix; go/types as compile witness; dominance rule on the language entry points (Compile before any write)",
+         "Decides that every file emitted for every corpus of the option matrix (schema sets × split-internal, byte versions, TL2, random, RPC, no-sanity and combinations) parses and type-checks together with the runtime packages, that a refused option set leaves no output directory, and — on the generator source — that in each registered language entry point an error-checked Kernel.Compile() precedes the first statement that can reach a file-system mutation and no error-returning step follows the write. Two schemas the generator accepts but for which the output does not type-check are recorded as known findings. Panic-freedom of the kernel on arbitrary schemas is not decided (panic sites are counted as evidence).",
+         "matrix-bounded for schemas and options; nothing generated is executed", "DESIGN.md §3 C14"),
  "C15": ("other", "map-order taint classification over the SSA/VTA-reachable generator code + who-may-call rules for clock/random sources and goroutine spawns + sort-dominance on input walking",
          "Decides that every range-over-map reachable from the generators' mains is commutative, collect-then-sort, or a site confirmed by reading (frozen table); that map-order helper results are sorted at each call site; that clock/random/pid sources and goroutine spawns occur only at listed owners; that input files are added in the sorted order of WalkDeterministic. Three genuine deviations are known findings (TLO timestamp, two map-order races in the legacy C++ placement). go/format determinism is trusted.",
          "trusts go/ssa+VTA reachability and the frozen site table (36 sites read by hand, reasons in the checker)", "DESIGN.md §3 C15"),
